@@ -20,6 +20,7 @@ import (
 	"github.com/go-i2p/crypto/kdf"
 	"go.step.sm/crypto/x25519"
 
+	"i2psim.local/sim/adapters"
 	"i2psim.local/sim/engine"
 	"i2psim.local/sim/refmodel"
 	"i2psim.local/sim/seams"
@@ -32,6 +33,11 @@ func (World) Name() string { return "els" }
 const bubbleBase = int64(946684800)
 
 func ls2Shape(r *engine.RNG) *engine.Shape {
+	if r.Chance(1, 2) {
+		// the catalogue's generator: every identity form, unsorted options,
+		// reserved flag bits, unusual key lengths, every transient key type
+		return adapters.ByName("ReadLeaseSet2").Gen(r)
+	}
 	sh := &engine.Shape{Kind: "ls2", Seed: r.Uint64() | 1, IdentSeed: 1 + uint64(r.Intn(6)), Cert: "key"}
 	sh.Sig, sh.Crypto = r.PickInt(7, 7, 11), r.PickInt(4, 0)
 	sh.U = []uint64{r.Uint64() & 0xFFFFFFFF, r.Uint64() & 0xFFFF, uint64(r.Intn(4)) << 1}
@@ -281,7 +287,11 @@ func encrypt(o *engine.Outcome, op *engine.Op, f *engine.Fault, store map[int64]
 	if err != nil {
 		return
 	}
-	ls2, rem, err := lease_set2.ReadLeaseSet2(append([]byte(nil), rf.Bytes...))
+	var ls2 lease_set2.LeaseSet2
+	var rem []byte
+	if o.Guard("ReadLeaseSet2", func() { ls2, rem, err = lease_set2.ReadLeaseSet2(append([]byte(nil), rf.Bytes...)) }) {
+		return
+	}
 	if err != nil || len(rem) != 0 {
 		o.Probe("reference_ls2_rejected")
 		return
